@@ -153,10 +153,10 @@ def tlc_expect_violation(ctx, module, cfg, invariant, workers=6, timeout=600):
     ctx.notes.setdefault("model_selftests", []).append({"module": module, "cfg": cfg, "violates": invariant})
 
 
-def tlc_trace(ctx, module, trace, timeout=1800):
+def tlc_trace(ctx, module, trace, timeout=1800, tag=""):
     """Trace validation. Returns (accepted, info) where info has the rejected record on rejection"""
-    metadir = os.path.join(ctx.work, "meta-trace")
-    env = {"TRACE": os.path.abspath(trace), "JAVA_TOOL_OPTIONS": "-Xss1g -Dtlc2.tool.queue.IStateQueue=StateDeque"}
+    metadir = os.path.join(ctx.work, "meta-trace" + tag)
+    env = {"TRACE": os.path.abspath(trace), "JAVA_TOOL_OPTIONS": "-Xss1g -Xmx6g -Dtlc2.tool.queue.IStateQueue=StateDeque"}
     cmd = ["timeout", str(timeout)] + tlc_cmd(module, module + ".cfg", 1, metadir)
     p = sh(cmd, cwd=SPEC, timeout=timeout + 30, env=env, check=False)
     out = p.stdout + p.stderr
@@ -319,9 +319,24 @@ def save_replay(prop, payload):
 def events_to_steps(events):
     """Turn recorded events back into the steps that produced them"""
     steps = []
+    cur = None
     for ev in events:
         e = ev["e"]
         if e in ("reset", "cbegin"):
+            continue
+        if e == "cur_open":
+            cur = {"e": "cursor", "n": ev["n"], "b": ev["b"], "upper": ev["upper"], "ops": [], "end": "close"}
+            continue
+        if e == "cur" and cur is not None:
+            op = {"op": ev["op"]}
+            if ev["op"].startswith("ins"):
+                op.update({"k": ev["k"], "v": ev["v"]})
+            cur["ops"].append(op)
+            continue
+        if e == "cur_close" and cur is not None:
+            cur["end"] = ev.get("end", "close")
+            steps.append(cur)
+            cur = None
             continue
         if e == "note":
             w = ev.get("what")
@@ -344,6 +359,8 @@ def events_to_steps(events):
             steps.append(s)
             continue
         steps.append({k: v for k, v in ev.items() if k not in ("r", "bk", "run", "i", "stale")})
+    if cur is not None:
+        steps.append(cur)   # the session in which the rejected operation happened
     return steps
 
 
@@ -377,7 +394,7 @@ def run_kv_walk(ctx, profile, runs, steps, page_sizes="512", caches="1048576", n
         for k, v in stats["kinds"].items():
             ctx.notes["event_kinds"][k] = ctx.notes["event_kinds"].get(k, 0) + v
         return stats
-    raise kv_violation(ctx, trace, info)
+    raise kv_violation(ctx, trace, info, features)
 
 
 def kv_abort_violation(ctx, journal, rc, features=None):
@@ -391,6 +408,8 @@ def kv_abort_violation(ctx, journal, rc, features=None):
         else:
             steps.append(j)
     payload = {"property": ctx.prop, "kind": "kv-script", "cfg": cfg, "steps": steps, "expect": "abort"}
+    if features:
+        payload["features"] = features
     # confirm: the same script must kill the process again
     script = os.path.join(ctx.work, "abort-script.json")
     json.dump({"cfg": cfg, "steps": steps}, open(script, "w"))
@@ -404,7 +423,7 @@ def kv_abort_violation(ctx, journal, rc, features=None):
     return Violation(ctx.prop, save_replay(ctx.prop, payload), what, sig)
 
 
-def kv_violation(ctx, trace, info):
+def kv_violation(ctx, trace, info, features=None):
     """Build the replay for a rejected KvTrace trace: the script of the rejected run up to the
     rejected record"""
     rec = info["record"]
@@ -429,6 +448,8 @@ def kv_violation(ctx, trace, info):
     what = f"KvTrace rejects {shown} (run {run}, step {rec.get('i')})"
     sig = "kv:" + hashlib.sha256(json.dumps([cfg, steps], sort_keys=True).encode()).hexdigest()[:16]
     payload = {"property": ctx.prop, "kind": "kv-script", "cfg": cfg, "steps": steps, "rejected": rec, "what": what, "signature": sig}
+    if features:
+        payload["features"] = features
     path = save_replay(ctx.prop, payload)
     return Violation(ctx.prop, path, what, sig)
 
@@ -1175,6 +1196,61 @@ def check_C10(ctx):
                      "rejected in every run")
 
 
+def run_cursor_enum(ctx, keys, length, configs, tag):
+    """Every cursor session (content x bound x entry point x operation sequence) on the real table; TLC judges"""
+    from concurrent.futures import ThreadPoolExecutor
+    chunks = 12
+    prefix = os.path.join(ctx.work, f"curs-{tag}")
+    p = sh([bin_path("curs", "cursor"), "--keys", str(keys), "--len", str(length), "--configs", str(configs), "--chunks", str(chunks),
+            "--seed", str(ctx.seed), "--out-prefix", prefix], timeout=3600)
+    stats = json.loads(p.stdout.strip().splitlines()[-1])
+    log(f"cursor sessions {tag}: {stats['sessions']} sessions ({stats['alphabet']} operations ^ {length}), {stats['events']} events, "
+        f"{stats['inserts_accepted']} inserts accepted / {stats['inserts_refused']} refused, {stats['panics']} panics")
+    files = [f"{prefix}-{c}.ndjson" for c in range(chunks)]
+    with ThreadPoolExecutor(max_workers=chunks) as pool:
+        results = list(pool.map(lambda a: tlc_trace(ctx, "KvTrace", a[1], timeout=4 * 3600, tag=f"-{tag}-{a[0]}"), enumerate(files)))
+    for f, (ok, info) in zip(files, results):
+        if not ok:
+            raise kv_violation(ctx, f, info, "cursor")
+    ctx.cov["evaluations"] += stats["events"]
+    ctx.cov["distinct_nontrivial"] += stats["sessions"]
+    ctx.cov["traces_validated_against_impl"] += stats["histories"]
+    ctx.notes[f"cursor_sessions_{tag}"] = stats
+    lines = open(files[0]).read().splitlines()
+    ctx.add_samples([json.loads(l) for l in lines if '"e":"cur"' in l][100:102])
+    for f in files:
+        os.remove(f)
+    return stats
+
+
+def check_C18(ctx):
+    build("cursor")
+    # exhaustive: all sessions of up to 2 (quick) / 3 (thorough) operations over 3 / 4 keys
+    run_cursor_enum(ctx, 3, 2, tiered(ctx, 3, 6), "k3l2")
+    if ctx.tier == "thorough":
+        run_cursor_enum(ctx, 4, 2, 4, "k4l2")
+        run_cursor_enum(ctx, 3, 3, 2, "k3l3")
+    # random: long sessions with runs of inserts in both directions, all table types, large values, reopen, readers
+    run_kv_walk(ctx, "cursor", tiered(ctx, 16, 160), tiered(ctx, 500, 1200), page_sizes="512,1024,4096", caches="1048576,0", nkeys=200, features="cursor")
+    run_kv_walk(ctx, "cursor", tiered(ctx, 8, 80), tiered(ctx, 500, 1200), page_sizes="512,4096", nkeys=1500, tag="cursor-sparse", features="cursor")
+    k = ctx.notes.get("event_kinds", {})
+    if k.get("cur", 0) < 3000 or k.get("rcursor", 0) < 50:
+        raise ToolError(f"vacuity: too few cursor operations in the random histories: {k}")
+    ctx.assumptions += ["built with redb's experimental_cursor feature (the feature also switches the range API to KeyRange; the harness is "
+                        "compiled against it in harness/target-cursor)",
+                        "storage errors during a cursor session (latch_error / poisoning) are not injected here"]
+    return dict(level="model_checking", exhaustive=False,
+                rule="design: Kv.tla CurOpen/CurOp/CurClose/RCursor - a cursor is a set L of keys before the gap; inserts accepted iff strictly "
+                     "between the neighbours (entries inserted through the cursor count at once), never overwrite; removals and moves step "
+                     "over exactly the neighbour. code: EVERY session (content over 3-4 keys x every bound x lower/upper x every sequence of "
+                     "up to 2 (thorough 3) of the 12-14 operations, ended by close() or drop) is executed on the real table under 3-6 "
+                     "configurations (page sizes, key/value types, value sizes around a third/half page) and each call result and the "
+                     "table read back after the session are validated by TLC; random histories with sessions of up to ~100 operations "
+                     "(ascending insert_before runs, descending insert_after runs, direction switches, removals) on tables of up to 1500 keys, "
+                     "values up to 5 pages, commits/aborts/reopen, and read-only cursors on write handles and read transactions. "
+                     "distinct_nontrivial = enumerated sessions")
+
+
 def check_C11(ctx):
     build()
     st = run_crash(ctx, tiered(ctx, 10, 100), tiered(ctx, 140, 300), extra=["--second-every", str(tiered(ctx, 31, 7))])
@@ -1251,6 +1327,7 @@ PROPS = {
     "C04": check_C04,
     "C09": check_C09,
     "C10": check_C10,
+    "C18": check_C18,
     "C17": check_C17,
 }
 
@@ -1301,7 +1378,9 @@ def main(argv):
             elif payload.get("kind") == "buddy":
                 still = replay_buddy(ctx, payload)
             else:
-                still = replay_kv_script(ctx, payload)
+                if payload.get("features"):
+                    build(payload["features"])
+                still = replay_kv_script(ctx, payload, payload.get("features"))
             if still:
                 print(f"VIOLATION property={prop} replay={replay}")
                 return 1
